@@ -2,7 +2,7 @@
    the refutations of the code before commit 2959d55, and the non-vacuity examples. *)
 From Coq Require Import Permutation.
 From C16 Require Import Model CaseDefs Proofs.
-From C16 Require Import ModelExt ModelDeadline ProofsDeadline.
+From C16 Require Import ModelExt ModelDeadline ProofsDeadline ProofsDeadlineContent.
 
 (* Per shard: the replicas are tried in order; plain errors are skipped; the first replica that does
    anything else decides: an answer, or a special refusal (too-many-uniq fails the shard at once). *)
@@ -572,6 +572,25 @@ Theorem C16_deadline_api_honest : forall sort h p1 p2 d hot hotread cold off siz
   end.
 Proof. exact deadline_api_honest. Qed.
 Print Assumptions C16_deadline_api_honest.
+
+(* ... and whatever Ingestor.Search returns under a request context — complete or flagged partial — has
+   exactly the content the untimed theorems describe, over the answers that were RECEIVED from the deciding
+   tier (C16_deadline_tier: the answers of exactly the shards that delivered): the returned IDs are the page
+   [off, off+size) of their duplicate-free union in response order (rank specification page_ok), each with a
+   source that answered it; Total, histogram, soft errors and aggregations are those of exactly these answers
+   (rest_desc); and documents are only fetched when the context was not yet done at the re-check.
+   (Hypotheses witnessed by C16_sort_hypothesis_witnessed and C16_deadline_example.) *)
+Theorem C16_deadline_response_content : forall sort, sort_ok sort ->
+  forall p1 p2 d hot hotread cold off size rev itv naggs fetch gap ffail p l x,
+  tsearch sort p1 p2 d hot hotread cold off size rev itv naggs fetch gap ffail = TS (SOk p l x) ->
+  exists t0 tier prio tend qs xs,
+    deciding_tier p1 d hot hotread cold = Some (t0, tier)
+    /\ tsearch_stores prio d t0 tier = TT (TOk p qs xs) tend
+    /\ page_ok rev (flat_map snd qs) off size (map fst l) = true /\ sources_ok qs l = true
+    /\ rest_desc itv naggs qs xs x
+    /\ (fetch = true -> l <> [] -> cancelled d (tend + gap) = false).
+Proof. exact deadline_response_content. Qed.
+Print Assumptions C16_deadline_response_content.
 
 (* ---------------------------------------------------------------- non-vacuity of the request-context extension *)
 (* shard 0 answers at time 1, shard 1 would answer at time 5; the context expires at 3:
